@@ -121,6 +121,10 @@ type Wallet struct {
 	W     *wallet.SingleAddressWallet
 	Store *testutil.EphemeralWalletStore
 	node  *Node
+	// Inj, if set, can make FundV2Transaction / BroadcastV2TransactionSet (and
+	// the wallet's syncer) fail; side is "host" or "renter"
+	Inj  *Injector
+	side string
 
 	mu    sync.Mutex
 	seq   int
@@ -130,14 +134,15 @@ type Wallet struct {
 // NewWallet attaches a fresh single-address wallet to the node.
 func (n *Node) NewWallet(name string, key types.PrivateKey) (*Wallet, error) {
 	store := testutil.NewEphemeralWalletStore()
-	w, err := wallet.NewSingleAddressWallet(key, n.CM, store, &testutil.MockSyncer{},
+	pw := &Wallet{Name: name, Key: key, Store: store, node: n, side: name}
+	w, err := wallet.NewSingleAddressWallet(key, n.CM, store, &failingSyncer{name: name, inj: &pw.Inj},
 		wallet.WithDefragThreshold(1<<30),
 		wallet.WithDebounceInterval(24*time.Hour),
 		wallet.WithReservationDuration(24*time.Hour))
 	if err != nil {
 		return nil, err
 	}
-	pw := &Wallet{Name: name, Key: key, W: w, Store: store, node: n}
+	pw.W = w
 	n.mu.Lock()
 	n.wallets = append(n.wallets, pw)
 	n.mu.Unlock()
@@ -228,6 +233,10 @@ func (w *Wallet) Address() types.Address { return w.W.Address() }
 // FundV2Transaction implements rhp.Wallet.
 func (w *Wallet) FundV2Transaction(txn *types.V2Transaction, amount types.Currency, useUnconfirmed bool) (types.ChainIndex, []int, error) {
 	before := len(txn.SiacoinInputs)
+	if err := w.Inj.Hit(w.side + ".wallet.FundV2Transaction"); err != nil {
+		w.record(WalletCall{Op: "FundV2Transaction", Amount: amount.ExactString(), Err: err.Error()})
+		return types.ChainIndex{}, nil, err
+	}
 	basis, toSign, err := w.W.FundV2Transaction(txn, amount, useUnconfirmed)
 	c := WalletCall{Op: "FundV2Transaction", Amount: amount.ExactString()}
 	if err != nil {
@@ -255,7 +264,10 @@ func (w *Wallet) ReleaseInputs(txns []types.Transaction, v2txns []types.V2Transa
 
 // BroadcastV2TransactionSet implements rhp.Wallet.
 func (w *Wallet) BroadcastV2TransactionSet(basis types.ChainIndex, txns []types.V2Transaction) error {
-	err := w.W.BroadcastV2TransactionSet(basis, txns)
+	err := w.Inj.Hit(w.side + ".wallet.BroadcastV2TransactionSet")
+	if err == nil {
+		err = w.W.BroadcastV2TransactionSet(basis, txns)
+	}
 	c := WalletCall{Op: "BroadcastV2TransactionSet", Inputs: inputIDs(txns)}
 	if err != nil {
 		c.Err = err.Error()
@@ -267,6 +279,7 @@ func (w *Wallet) BroadcastV2TransactionSet(basis types.ChainIndex, txns []types.
 // A WalletSnap is the observable spendable state of a wallet.
 type WalletSnap struct {
 	Spendable []types.SiacoinOutputID `json:"spendable"`
+	Values    []types.Currency        `json:"-"` // parallel to Spendable
 	Balance   wallet.Balance          `json:"balance"`
 }
 
@@ -277,12 +290,13 @@ func (w *Wallet) Snapshot() (WalletSnap, error) {
 		return WalletSnap{}, err
 	}
 	var s WalletSnap
+	sort.Slice(outs, func(i, j int) bool {
+		return string(outs[i].ID[:]) < string(outs[j].ID[:])
+	})
 	for _, o := range outs {
 		s.Spendable = append(s.Spendable, o.ID)
+		s.Values = append(s.Values, o.SiacoinOutput.Value)
 	}
-	sort.Slice(s.Spendable, func(i, j int) bool {
-		return string(s.Spendable[i][:]) < string(s.Spendable[j][:])
-	})
 	s.Balance, err = w.W.Balance()
 	return s, err
 }
@@ -300,12 +314,39 @@ func (s WalletSnap) Equal(o WalletSnap) bool {
 	return true
 }
 
+// Without returns the snapshot expected once the outputs in spent (those
+// consumed by transactions that entered the node's pool meanwhile) are gone:
+// they are unspendable because of the pool, not because of a reservation.
+func (s WalletSnap) Without(spent map[types.SiacoinOutputID]bool) (WalletSnap, int) {
+	out := WalletSnap{Balance: s.Balance}
+	n := 0
+	for i, id := range s.Spendable {
+		if spent[id] {
+			out.Balance.Spendable = out.Balance.Spendable.Sub(s.Values[i])
+			n++
+			continue
+		}
+		out.Spendable = append(out.Spendable, id)
+		out.Values = append(out.Values, s.Values[i])
+	}
+	return out, n
+}
+
+// EqualModuloUnconfirmed is Equal ignoring the unconfirmed balance (which
+// counts outputs created by pool transactions).
+func (s WalletSnap) EqualModuloUnconfirmed(o WalletSnap) bool {
+	s.Balance.Unconfirmed, o.Balance.Unconfirmed = types.ZeroCurrency, types.ZeroCurrency
+	return s.Equal(o)
+}
+
 // RenterSigner adapts a wallet proxy plus the renter's contract key to
 // rhp.FormContractSigner.
 type RenterSigner struct {
 	W              *Wallet
 	Key            types.PrivateKey
 	UseUnconfirmed bool
+	// FeeOverride, if set, is what RecommendedFee reports (signer behaviour)
+	FeeOverride *types.Currency
 }
 
 // FundV2Transaction implements rhp.TransactionFunder.
@@ -314,7 +355,12 @@ func (s *RenterSigner) FundV2Transaction(txn *types.V2Transaction, amount types.
 }
 
 // RecommendedFee implements rhp.TransactionFunder.
-func (s *RenterSigner) RecommendedFee() types.Currency { return s.W.W.RecommendedFee() }
+func (s *RenterSigner) RecommendedFee() types.Currency {
+	if s.FeeOverride != nil {
+		return *s.FeeOverride
+	}
+	return s.W.W.RecommendedFee()
+}
 
 // ReleaseInputs implements rhp.TransactionFunder.
 func (s *RenterSigner) ReleaseInputs(txns []types.V2Transaction) { s.W.ReleaseInputs(nil, txns) }
@@ -345,6 +391,7 @@ type ContractEvent struct {
 // Contractor is a recording proxy around the in-repo EphemeralContractor.
 type Contractor struct {
 	*testutil.EphemeralContractor
+	Inj *Injector
 
 	mu     sync.Mutex
 	seq    int
@@ -353,7 +400,10 @@ type Contractor struct {
 
 // AddV2Contract implements rhp.Contractor.
 func (c *Contractor) AddV2Contract(set rhp.TransactionSet, usage rhp4.Usage) error {
-	err := c.EphemeralContractor.AddV2Contract(set, usage)
+	err := c.Inj.Hit("host.contractor.AddV2Contract")
+	if err == nil {
+		err = c.EphemeralContractor.AddV2Contract(set, usage)
+	}
 	ev := ContractEvent{Op: "add", Set: set, Err: err}
 	if n := len(set.Transactions); n > 0 {
 		txn := set.Transactions[n-1]
@@ -368,7 +418,10 @@ func (c *Contractor) AddV2Contract(set rhp.TransactionSet, usage rhp4.Usage) err
 
 // RenewV2Contract implements rhp.Contractor.
 func (c *Contractor) RenewV2Contract(set rhp.TransactionSet, usage rhp4.Usage) error {
-	err := c.EphemeralContractor.RenewV2Contract(set, usage)
+	err := c.Inj.Hit("host.contractor.RenewV2Contract")
+	if err == nil {
+		err = c.EphemeralContractor.RenewV2Contract(set, usage)
+	}
 	ev := ContractEvent{Op: "renew", Set: set, Err: err}
 	if n := len(set.Transactions); n > 0 {
 		txn := set.Transactions[n-1]
@@ -411,11 +464,33 @@ func (c *Contractor) ResetEvents() {
 // desynchronise the lab's ground truth when the exchange is aborted. (That
 // behaviour is the subject of property C09, not of this lab.)
 func (c *Contractor) LockV2Contract(id types.FileContractID) (rhp.RevisionState, func(), error) {
+	if err := c.Inj.Hit("host.contractor.LockV2Contract"); err != nil {
+		return rhp.RevisionState{}, nil, err
+	}
 	rs, unlock, err := c.EphemeralContractor.LockV2Contract(id)
 	if err == nil {
 		rs.Roots = append([]types.Hash256(nil), rs.Roots...)
 	}
 	return rs, unlock, err
+}
+
+// V2FileContractElement implements rhp.Contractor.
+func (c *Contractor) V2FileContractElement(id types.FileContractID) (types.ChainIndex, types.V2FileContractElement, error) {
+	if err := c.Inj.Hit("host.contractor.V2FileContractElement"); err != nil {
+		return types.ChainIndex{}, types.V2FileContractElement{}, err
+	}
+	return c.EphemeralContractor.V2FileContractElement(id)
+}
+
+// Locked reports whether the contract lock is currently held, by trying to
+// take it (only for ids known to exist).
+func (c *Contractor) Locked(id types.FileContractID) bool {
+	_, unlock, err := c.EphemeralContractor.LockV2Contract(id)
+	if err != nil {
+		return true
+	}
+	unlock()
+	return false
 }
 
 // State returns the host's current view of an existing contract (revision and
